@@ -281,7 +281,7 @@ class Store(object):
         self.gen = {}  # lang -> {name: body}            (edits living in generated files)
 
 
-def run_shroud(fs, env, lib_yaml, fname, argv_extra, files_extra, langs):
+def run_shroud(fs, env, lib_yaml, fname, argv_extra, files_extra, langs, cwd=None):
     from . import host
 
     d = copy.deepcopy(lib_yaml)
@@ -304,7 +304,7 @@ def run_shroud(fs, env, lib_yaml, fname, argv_extra, files_extra, langs):
     files.update(files_extra)
     argv = ["--path", IN_DIR, "--outdir", OUT, "--logdir", "/sim/log", "--option", "debug_testsuite=true",
             "--nowrite-version"] + argv_extra + [IN_DIR + "/" + fname]
-    job = Job("c12", files, argv, [OUT, WORK, "/sim/log"])
+    job = Job("c12", files, argv, [OUT, WORK, "/sim/log"], cwd=cwd or WORK)
     status, message, trace = host.run_job(fs, env, job, "cli")
     return status, message, trace, text
 
@@ -668,6 +668,7 @@ def execute_history_c12(spec, camp):
                     set_nested(sc.setdefault(lang, {}), name, list(body))
             yd["splicer_code"] = sc
         ylists = {}
+        run_cwd = None
         # hand-written splicer files
         for lang, names in store.userfile.items():
             for chan in ("yaml", "cmdline"):
@@ -678,8 +679,18 @@ def execute_history_c12(spec, camp):
                     continue
                 ext = {"c": ".c", "f": ".f", "py": ".c", "lua": ".c"}[lang]
                 # how people name and place their splicer files (constant within a history)
-                naming = spec.get("index", 0) % 4
+                naming = spec.get("index", 0) % 5
                 fn = "user_%s_%s%s" % (lang, chan, ext)
+                if naming == 4 and workflow == "userfile":
+                    # the YAML-listed splicer file began as a copy of a generated file and kept its name;
+                    # it lives in the directory named by --path, and shroud is run from the build
+                    # directory, where the generated file of that name sits from the second cycle on
+                    run_cwd = OUT
+                    gen = sorted(posixpath.basename(q) for q in (prev_out or {}).get(lang, {})
+                                 if not q.endswith((".h", ".hpp", ".py")))
+                    if chan == "yaml" and gen:
+                        fn = gen[(len(lang) + spec.get("index", 0) // 5) % len(gen)]
+                        probe("splicer_file_named_like_a_generated_file")
                 if naming == 1:
                     # the same base name in two directories
                     fn = "%s/usersp_%s%s" % ("core" if chan == "yaml" else "local", lang, ext)
@@ -738,7 +749,7 @@ def execute_history_c12(spec, camp):
                         ylists.setdefault(lang, []).append(posixpath.relpath(p, IN_DIR))
         if ylists:
             yd["splicer"] = ylists
-        st, msg, trace, ytext = run_shroud(fs, env, yd, fname, argv_extra, files_extra, langs)
+        st, msg, trace, ytext = run_shroud(fs, env, yd, fname, argv_extra, files_extra, langs, cwd=run_cwd)
         events.append(list(trace.events) + [("status", st)])
         result["runs"].append({"op": k, "kind": "REGEN", "job": spec["lib"], "entry": "cli", "status": st,
                                "pre": "cycle%d" % cycle, "nops": trace.nops, "faults_fired": [],
